@@ -268,6 +268,10 @@ public:
      * \param rhs The PDUOption to be copied.
      */
     PDUOption& operator=(const PDUOption& rhs) {
+        // Self assignment would free the buffer we're about to copy from
+        if (this == &rhs) {
+            return *this;
+        }
         option_ = rhs.option_;
         size_ = rhs.size_;
         if (real_size_ > small_buffer_size) {
